@@ -65,3 +65,8 @@ Definition lin_to_string (l : lin) : string :=
    infinite as "+inf" / "-inf", so the infinitesimal part must be zero there (it is for every bound lra_theory builds) *)
 Definition icanon (x : irat) : Prop :=
   iwf x /\ (rat_den (irat_rat x) = 0 -> irat_inf x = rat_ZERO).
+
+(* the key under which lra_theory caches an assertion literal (lra_theory.cpp new_lt/new_leq: "x<slack> <= <bound>",
+   new_geq/new_gt: "x<slack> >= <bound>"); the format is read from the source, its use is observed by the C11 differential *)
+Definition asrt_key (slack : var) (geq : bool) (c : irat) : string :=
+  "x" ++ str_N slack ++ (if geq then " >= " else " <= ") ++ irat_to_string c.
